@@ -164,8 +164,65 @@ pub fn exec(op: &str, a: &[Value]) -> Value {
     }
 }
 
+fn payload(v: Value) -> Value {
+    // payload of an Ok-wrapped result [0, p]
+    match v {
+        Value::Array(mut a) if a.len() == 2 && a[0] == json!(0) => a.pop().unwrap(),
+        other => panic!("harness: unexpected composite part {}", other),
+    }
+}
+
+struct ClockGuard;
+impl Drop for ClockGuard {
+    fn drop(&mut self) {
+        sqldatetime::verif_hooks::set_clock(None);
+    }
+}
+
 fn exec_inner(op: &str, a: &[Value]) -> Value {
     let (ty, name) = op.split_once('.').unwrap_or_else(|| panic!("harness: bad op {}", op));
+    // composite / indexed forms used by the trace specifications
+    match name {
+        "trunc" | "round" => {
+            let i = ai(&a[1]) as usize;
+            return exec_inner(&format!("{}.{}_{}", ty, name, UNITS[i - 1]), &a[..1]);
+        }
+        "acc" => {
+            let parts: Vec<Value> = ["year", "month", "day", "hour", "minute", "second", "date"]
+                .iter()
+                .map(|n| exec_inner(&format!("{}.{}", ty, n), &a[..1]))
+                .collect();
+            return ok(Value::Array(parts));
+        }
+        "ord" => {
+            let parts: Vec<Value> = ["cmp", "eq", "hash_eq"]
+                .iter()
+                .map(|n| payload(exec_inner(&format!("{}.{}", ty, n), a)))
+                .collect();
+            return ok(Value::Array(parts));
+        }
+        "ord_ts" | "ord_od" | "ord_d" | "ord_dt" | "ord_t" => {
+            let other = &name[4..];
+            let c = payload(exec_inner(&format!("{}.cmp_{}", ty, other), a));
+            let e = payload(exec_inner(&format!("{}.eq_{}", ty, other), a));
+            return ok(json!([c, e]));
+        }
+        "now_at" | "from_time_at" | "parse_at" => {
+            let clock = a[0].as_array().unwrap_or_else(|| panic!("harness: clock expected"));
+            set_clock(clock);
+            let _g = ClockGuard;
+            let inner = match name {
+                "now_at" => "now",
+                "from_time_at" => "try_from_time",
+                _ => "parse",
+            };
+            return exec_inner(&format!("{}.{}", ty, inner), &a[1..]);
+        }
+        _ => {}
+    }
+    if ty == "AG" {
+        return exec_agree(name, a);
+    }
     match ty {
         "clock" => set_clock(a),
         "F" => match name {
@@ -180,6 +237,68 @@ fn exec_inner(op: &str, a: &[Value]) -> Value {
         "OD" => exec_od(name, a).unwrap_or_else(|| panic!("harness: unknown op {}", op)),
         _ => panic!("harness: unknown op {}", op),
     }
+}
+
+/// C17 composites: the same operation through Date / Timestamp / OracleDate,
+/// results side by side (each part is a full [tag, payload] result)
+fn exec_agree(name: &str, a: &[Value]) -> Value {
+    let mid = |n: &Value| json!([n.clone(), 0, 0]);
+    let parts: Vec<Value> = match name {
+        // (date n, interval, 0 add / 1 sub)
+        "dt" | "ym" => {
+            let opn = format!("{}_interval_{}", if ai(&a[2]) == 0 { "add" } else { "sub" }, name);
+            vec![
+                exec_inner(&format!("D.{}", opn), &[a[0].clone(), a[1].clone()]),
+                exec_inner(&format!("TS.{}", opn), &[mid(&a[0]), a[1].clone()]),
+                exec_inner(&format!("OD.{}", opn), &[mid(&a[0]), a[1].clone()]),
+            ]
+        }
+        // (oracle date, interval, 0 add / 1 sub)
+        "dt2" | "ym2" => {
+            let opn = format!("{}_interval_{}", if ai(&a[2]) == 0 { "add" } else { "sub" }, &name[..2]);
+            vec![
+                exec_inner(&format!("TS.{}", opn), &[a[0].clone(), a[1].clone()]),
+                exec_inner(&format!("OD.{}", opn), &[a[0].clone(), a[1].clone()]),
+            ]
+        }
+        "ldm" => vec![
+            exec_inner("D.last_day_of_month", &a[..1]),
+            exec_inner("TS.last_day_of_month", &[mid(&a[0])]),
+            exec_inner("OD.last_day_of_month", &[mid(&a[0])]),
+        ],
+        "ldm2" => vec![exec_inner("TS.last_day_of_month", &a[..1]), exec_inner("OD.last_day_of_month", &a[..1])],
+        "diff" => vec![
+            exec_inner("D.sub_timestamp", a),
+            exec_inner("TS.sub_timestamp", &[mid(&a[0]), a[1].clone()]),
+            exec_inner("TS.sub_date", &[a[1].clone(), a[0].clone()]),
+        ],
+        "diff2" => vec![
+            exec_inner("OD.sub_timestamp", a),
+            exec_inner("TS.sub_timestamp", a),
+            exec_inner("TS.oracle_sub_date", &[a[1].clone(), a[0].clone()]),
+        ],
+        "cmp_d_ts" => vec![
+            exec_inner("D.ord_ts", a),
+            exec_inner("TS.ord_d", &[a[1].clone(), a[0].clone()]),
+            exec_inner("TS.ord", &[mid(&a[0]), a[1].clone()]),
+        ],
+        "cmp_od_ts" => vec![
+            exec_inner("OD.ord_ts", a),
+            exec_inner("TS.ord_od", &[a[1].clone(), a[0].clone()]),
+            exec_inner("TS.ord", a),
+        ],
+        "cmp_od_d" => vec![
+            exec_inner("OD.ord_d", a),
+            exec_inner("D.ord_od", &[a[1].clone(), a[0].clone()]),
+            exec_inner("TS.ord", &[a[0].clone(), mid(&a[1])]),
+        ],
+        "trunc" | "round" => vec![
+            exec_inner(&format!("TS.{}", name), a),
+            exec_inner(&format!("OD.{}", name), a),
+        ],
+        _ => panic!("harness: unknown op AG.{}", name),
+    };
+    ok(Value::Array(parts))
 }
 
 fn bin_roundtrip<T, R>(v: &T, raw_of: impl Fn(&[u8]) -> R, enc_raw: impl Fn(R) -> Value, dec: impl Fn(&[u8]) -> Option<T>, enc: impl Fn(T) -> Value) -> Value
@@ -239,36 +358,36 @@ macro_rules! json_ops {
 fn exec_date(name: &str, a: &[Value]) -> Option<Value> {
     Some(match name {
         "try_from_ymd" => res(Date::try_from_ymd(a_i32(&a[0]), a_u32(&a[1]), a_u32(&a[2])), r_date),
-        "is_valid" => r_bool(Date::is_valid(a_i32(&a[0]), a_u32(&a[1]), a_u32(&a[2]))),
+        "is_valid" => ok(r_bool(Date::is_valid(a_i32(&a[0]), a_u32(&a[1]), a_u32(&a[2])))),
         "try_from_days" => res(Date::try_from_days(a_i32(&a[0])), r_date),
-        "days" => json!(a_date(&a[0]).days()),
+        "days" => ok(json!(a_date(&a[0]).days())),
         "extract" => {
             let (y, m, d) = a_date(&a[0]).extract();
-            json!([y, m, d])
+            ok(json!([y, m, d]))
         }
         "and_hms" => res(a_date(&a[0]).and_hms(a_u32(&a[1]), a_u32(&a[2]), a_u32(&a[3]), a_u32(&a[4])), r_ts),
-        "and_time" => r_ts(a_date(&a[0]).and_time(a_time(&a[1]))),
-        "to_ts" => r_ts(Timestamp::from(a_date(&a[0]))),
+        "and_time" => ok(r_ts(a_date(&a[0]).and_time(a_time(&a[1])))),
+        "to_ts" => ok(r_ts(Timestamp::from(a_date(&a[0])))),
         "add_days" => res(a_date(&a[0]).add_days(a_i32(&a[1])), r_date),
         "sub_days" => res(a_date(&a[0]).sub_days(a_i32(&a[1])), r_date),
         "add_interval_ym" => res(a_date(&a[0]).add_interval_ym(a_ym(&a[1])), r_ts),
         "sub_interval_ym" => res(a_date(&a[0]).sub_interval_ym(a_ym(&a[1])), r_ts),
         "add_interval_dt" => res(a_date(&a[0]).add_interval_dt(a_dt(&a[1])), r_ts),
         "sub_interval_dt" => res(a_date(&a[0]).sub_interval_dt(a_dt(&a[1])), r_ts),
-        "add_time" => r_ts(a_date(&a[0]).add_time(a_time(&a[1]))),
+        "add_time" => ok(r_ts(a_date(&a[0]).add_time(a_time(&a[1])))),
         "sub_time" => res(a_date(&a[0]).sub_time(a_time(&a[1])), r_ts),
-        "sub_date" => json!(a_date(&a[0]).sub_date(a_date(&a[1]))),
-        "sub_timestamp" => r_dt(a_date(&a[0]).sub_timestamp(a_ts(&a[1]))),
-        "day_of_week" => json!(a_date(&a[0]).day_of_week() as i32),
+        "sub_date" => ok(json!(a_date(&a[0]).sub_date(a_date(&a[1])))),
+        "sub_timestamp" => ok(r_dt(a_date(&a[0]).sub_timestamp(a_ts(&a[1])))),
+        "day_of_week" => ok(json!(a_date(&a[0]).day_of_week() as i32)),
         "now" => res(Date::now(), r_date),
-        "last_day_of_month" => r_date(a_date(&a[0]).last_day_of_month()),
-        "cmp" => r_ord(a_date(&a[0]).cmp(&a_date(&a[1]))),
-        "eq" => r_bool(a_date(&a[0]) == a_date(&a[1])),
-        "hash_eq" => r_bool(h(&a_date(&a[0])) == h(&a_date(&a[1]))),
-        "cmp_ts" => cmp3(&a_date(&a[0]), &a_ts(&a[1])),
-        "eq_ts" => r_bool(a_date(&a[0]) == a_ts(&a[1])),
-        "cmp_od" => cmp3(&a_date(&a[0]), &a_od(&a[1])),
-        "eq_od" => r_bool(a_date(&a[0]) == a_od(&a[1])),
+        "last_day_of_month" => ok(r_date(a_date(&a[0]).last_day_of_month())),
+        "cmp" => ok(r_ord(a_date(&a[0]).cmp(&a_date(&a[1])))),
+        "eq" => ok(r_bool(a_date(&a[0]) == a_date(&a[1]))),
+        "hash_eq" => ok(r_bool(h(&a_date(&a[0])) == h(&a_date(&a[1])))),
+        "cmp_ts" => ok(cmp3(&a_date(&a[0]), &a_ts(&a[1]))),
+        "eq_ts" => ok(r_bool(a_date(&a[0]) == a_ts(&a[1]))),
+        "cmp_od" => ok(cmp3(&a_date(&a[0]), &a_od(&a[1]))),
+        "eq_od" => ok(r_bool(a_date(&a[0]) == a_od(&a[1]))),
         "format" => {
             let pic = a_txt(&a[1]);
             format_via!(Date, a_date(&a[0]), &pic)
@@ -279,7 +398,7 @@ fn exec_date(name: &str, a: &[Value]) -> Option<Value> {
         }
         "bin" => {
             let v = a_date(&a[0]);
-            bin_roundtrip(&v, i32_of, |r| json!(r), |b| bincode::deserialize::<Date>(b).ok(), r_date)
+            ok(bin_roundtrip(&v, i32_of, |r| json!(r), |b| bincode::deserialize::<Date>(b).ok(), r_date))
         }
         "unbin" => {
             let raw = a_i32(&a[0]);
@@ -310,26 +429,26 @@ fn exec_date(name: &str, a: &[Value]) -> Option<Value> {
 fn exec_time(name: &str, a: &[Value]) -> Option<Value> {
     Some(match name {
         "try_from_hms" => res(Time::try_from_hms(a_u32(&a[0]), a_u32(&a[1]), a_u32(&a[2]), a_u32(&a[3])), r_time),
-        "is_valid" => r_bool(Time::is_valid(a_u32(&a[0]), a_u32(&a[1]), a_u32(&a[2]), a_u32(&a[3]))),
+        "is_valid" => ok(r_bool(Time::is_valid(a_u32(&a[0]), a_u32(&a[1]), a_u32(&a[2]), a_u32(&a[3])))),
         "try_from_usecs" => res(Time::try_from_usecs(a_i64(&a[0])), r_time),
-        "usecs" => v3(a_time(&a[0]).usecs() as i128),
+        "usecs" => ok(v3(a_time(&a[0]).usecs() as i128)),
         "extract" => {
             let (hh, m, s, u) = a_time(&a[0]).extract();
-            json!([hh, m, s, u])
+            ok(json!([hh, m, s, u]))
         }
-        "sub_time" => r_dt(a_time(&a[0]).sub_time(a_time(&a[1]))),
-        "add_interval_dt" => r_time(a_time(&a[0]).add_interval_dt(a_dt(&a[1]))),
-        "sub_interval_dt" => r_time(a_time(&a[0]).sub_interval_dt(a_dt(&a[1]))),
+        "sub_time" => ok(r_dt(a_time(&a[0]).sub_time(a_time(&a[1])))),
+        "add_interval_dt" => ok(r_time(a_time(&a[0]).add_interval_dt(a_dt(&a[1])))),
+        "sub_interval_dt" => ok(r_time(a_time(&a[0]).sub_interval_dt(a_dt(&a[1])))),
         "mul_f64" => res(a_time(&a[0]).mul_f64(a_f64(&a[1])), r_dt),
         "div_f64" => res(a_time(&a[0]).div_f64(a_f64(&a[1])), r_dt),
-        "from_ts" => r_time(Time::from(a_ts(&a[0]))),
-        "from_dt" => r_time(Time::from(a_dt(&a[0]))),
-        "from_od" => r_time(Time::from(a_od(&a[0]))),
-        "cmp" => r_ord(a_time(&a[0]).cmp(&a_time(&a[1]))),
-        "eq" => r_bool(a_time(&a[0]) == a_time(&a[1])),
-        "hash_eq" => r_bool(h(&a_time(&a[0])) == h(&a_time(&a[1]))),
-        "cmp_dt" => cmp3(&a_time(&a[0]), &a_dt(&a[1])),
-        "eq_dt" => r_bool(a_time(&a[0]) == a_dt(&a[1])),
+        "from_ts" => ok(r_time(Time::from(a_ts(&a[0])))),
+        "from_dt" => ok(r_time(Time::from(a_dt(&a[0])))),
+        "from_od" => ok(r_time(Time::from(a_od(&a[0])))),
+        "cmp" => ok(r_ord(a_time(&a[0]).cmp(&a_time(&a[1])))),
+        "eq" => ok(r_bool(a_time(&a[0]) == a_time(&a[1]))),
+        "hash_eq" => ok(r_bool(h(&a_time(&a[0])) == h(&a_time(&a[1])))),
+        "cmp_dt" => ok(cmp3(&a_time(&a[0]), &a_dt(&a[1]))),
+        "eq_dt" => ok(r_bool(a_time(&a[0]) == a_dt(&a[1]))),
         "format" => {
             let pic = a_txt(&a[1]);
             format_via!(Time, a_time(&a[0]), &pic)
@@ -340,7 +459,7 @@ fn exec_time(name: &str, a: &[Value]) -> Option<Value> {
         }
         "bin" => {
             let v = a_time(&a[0]);
-            bin_roundtrip(&v, i64_of, |r| v3(r as i128), |b| bincode::deserialize::<Time>(b).ok(), r_time)
+            ok(bin_roundtrip(&v, i64_of, |r| v3(r as i128), |b| bincode::deserialize::<Time>(b).ok(), r_time))
         }
         "unbin" => {
             let raw = a_i64(&a[0]);
@@ -367,12 +486,12 @@ fn exec_time(name: &str, a: &[Value]) -> Option<Value> {
 
 fn exec_ts(name: &str, a: &[Value]) -> Option<Value> {
     Some(match name {
-        "new" => r_ts(Timestamp::new(a_date(&a[0]), a_time(&a[1]))),
+        "new" => ok(r_ts(Timestamp::new(a_date(&a[0]), a_time(&a[1])))),
         "extract" => {
             let (d, t) = a_ts(&a[0]).extract();
-            json!([d.days(), t.usecs() / 1_000_000, t.usecs() % 1_000_000])
+            ok(json!([d.days(), t.usecs() / 1_000_000, t.usecs() % 1_000_000]))
         }
-        "usecs" => v3(a_ts(&a[0]).usecs() as i128),
+        "usecs" => ok(v3(a_ts(&a[0]).usecs() as i128)),
         "try_from_usecs" => res(Timestamp::try_from_usecs(a_i64(&a[0])), r_ts),
         "add_interval_dt" => res(a_ts(&a[0]).add_interval_dt(a_dt(&a[1])), r_ts),
         "sub_interval_dt" => res(a_ts(&a[0]).sub_interval_dt(a_dt(&a[1])), r_ts),
@@ -382,21 +501,21 @@ fn exec_ts(name: &str, a: &[Value]) -> Option<Value> {
         "sub_time" => res(a_ts(&a[0]).sub_time(a_time(&a[1])), r_ts),
         "add_days" => res(a_ts(&a[0]).add_days(a_f64(&a[1])), r_ts),
         "sub_days" => res(a_ts(&a[0]).sub_days(a_f64(&a[1])), r_ts),
-        "sub_date" => r_dt(a_ts(&a[0]).sub_date(a_date(&a[1]))),
-        "sub_timestamp" => r_dt(a_ts(&a[0]).sub_timestamp(a_ts(&a[1]))),
-        "oracle_sub_date" => r_dt(a_ts(&a[0]).oracle_sub_date(a_od(&a[1]))),
+        "sub_date" => ok(r_dt(a_ts(&a[0]).sub_date(a_date(&a[1])))),
+        "sub_timestamp" => ok(r_dt(a_ts(&a[0]).sub_timestamp(a_ts(&a[1])))),
+        "oracle_sub_date" => ok(r_dt(a_ts(&a[0]).oracle_sub_date(a_od(&a[1])))),
         "oracle_add_days" => res(a_ts(&a[0]).oracle_add_days(a_f64(&a[1])), r_od),
         "oracle_sub_days" => res(a_ts(&a[0]).oracle_sub_days(a_f64(&a[1])), r_od),
         "now" => res(Timestamp::now(), r_ts),
         "try_from_time" => res(Timestamp::try_from(a_time(&a[0])), r_ts),
-        "last_day_of_month" => r_ts(a_ts(&a[0]).last_day_of_month()),
-        "cmp" => r_ord(a_ts(&a[0]).cmp(&a_ts(&a[1]))),
-        "eq" => r_bool(a_ts(&a[0]) == a_ts(&a[1])),
-        "hash_eq" => r_bool(h(&a_ts(&a[0])) == h(&a_ts(&a[1]))),
-        "cmp_d" => cmp3(&a_ts(&a[0]), &a_date(&a[1])),
-        "eq_d" => r_bool(a_ts(&a[0]) == a_date(&a[1])),
-        "cmp_od" => cmp3(&a_ts(&a[0]), &a_od(&a[1])),
-        "eq_od" => r_bool(a_ts(&a[0]) == a_od(&a[1])),
+        "last_day_of_month" => ok(r_ts(a_ts(&a[0]).last_day_of_month())),
+        "cmp" => ok(r_ord(a_ts(&a[0]).cmp(&a_ts(&a[1])))),
+        "eq" => ok(r_bool(a_ts(&a[0]) == a_ts(&a[1]))),
+        "hash_eq" => ok(r_bool(h(&a_ts(&a[0])) == h(&a_ts(&a[1])))),
+        "cmp_d" => ok(cmp3(&a_ts(&a[0]), &a_date(&a[1]))),
+        "eq_d" => ok(r_bool(a_ts(&a[0]) == a_date(&a[1]))),
+        "cmp_od" => ok(cmp3(&a_ts(&a[0]), &a_od(&a[1]))),
+        "eq_od" => ok(r_bool(a_ts(&a[0]) == a_od(&a[1]))),
         "format" => {
             let pic = a_txt(&a[1]);
             format_via!(Timestamp, a_ts(&a[0]), &pic)
@@ -407,7 +526,7 @@ fn exec_ts(name: &str, a: &[Value]) -> Option<Value> {
         }
         "bin" => {
             let v = a_ts(&a[0]);
-            bin_roundtrip(&v, i64_of, |r| v3(r as i128), |b| bincode::deserialize::<Timestamp>(b).ok(), r_ts)
+            ok(bin_roundtrip(&v, i64_of, |r| v3(r as i128), |b| bincode::deserialize::<Timestamp>(b).ok(), r_ts))
         }
         "unbin" => {
             let raw = a_i64(&a[0]);
@@ -438,21 +557,21 @@ fn exec_ts(name: &str, a: &[Value]) -> Option<Value> {
 fn exec_ym(name: &str, a: &[Value]) -> Option<Value> {
     Some(match name {
         "try_from_ym" => res(IntervalYM::try_from_ym(a_u32(&a[0]), a_u32(&a[1])), r_ym),
-        "is_valid_ym" => r_bool(IntervalYM::is_valid_ym(a_u32(&a[0]), a_u32(&a[1]))),
+        "is_valid_ym" => ok(r_bool(IntervalYM::is_valid_ym(a_u32(&a[0]), a_u32(&a[1])))),
         "try_from_months" => res(IntervalYM::try_from_months(a_i32(&a[0])), r_ym),
-        "months" => json!(a_ym(&a[0]).months()),
+        "months" => ok(json!(a_ym(&a[0]).months())),
         "extract" => {
             let (s, y, m) = a_ym(&a[0]).extract();
-            json!([sign(s), y, m])
+            ok(json!([sign(s), y, m]))
         }
         "add_interval_ym" => res(a_ym(&a[0]).add_interval_ym(a_ym(&a[1])), r_ym),
         "sub_interval_ym" => res(a_ym(&a[0]).sub_interval_ym(a_ym(&a[1])), r_ym),
         "mul_f64" => res(a_ym(&a[0]).mul_f64(a_f64(&a[1])), r_ym),
         "div_f64" => res(a_ym(&a[0]).div_f64(a_f64(&a[1])), r_ym),
-        "neg" => r_ym(-a_ym(&a[0])),
-        "cmp" => r_ord(a_ym(&a[0]).cmp(&a_ym(&a[1]))),
-        "eq" => r_bool(a_ym(&a[0]) == a_ym(&a[1])),
-        "hash_eq" => r_bool(h(&a_ym(&a[0])) == h(&a_ym(&a[1]))),
+        "neg" => ok(r_ym(-a_ym(&a[0]))),
+        "cmp" => ok(r_ord(a_ym(&a[0]).cmp(&a_ym(&a[1])))),
+        "eq" => ok(r_bool(a_ym(&a[0]) == a_ym(&a[1]))),
+        "hash_eq" => ok(r_bool(h(&a_ym(&a[0])) == h(&a_ym(&a[1])))),
         "format" => {
             let pic = a_txt(&a[1]);
             format_via!(IntervalYM, a_ym(&a[0]), &pic)
@@ -463,7 +582,7 @@ fn exec_ym(name: &str, a: &[Value]) -> Option<Value> {
         }
         "bin" => {
             let v = a_ym(&a[0]);
-            bin_roundtrip(&v, i32_of, |r| json!(r), |b| bincode::deserialize::<IntervalYM>(b).ok(), r_ym)
+            ok(bin_roundtrip(&v, i32_of, |r| json!(r), |b| bincode::deserialize::<IntervalYM>(b).ok(), r_ym))
         }
         "unbin" => {
             let raw = a_i32(&a[0]);
@@ -494,25 +613,25 @@ fn exec_dt(name: &str, a: &[Value]) -> Option<Value> {
             IntervalDT::try_from_dhms(a_u32(&a[0]), a_u32(&a[1]), a_u32(&a[2]), a_u32(&a[3]), a_u32(&a[4])),
             r_dt,
         ),
-        "is_valid" => r_bool(IntervalDT::is_valid(a_u32(&a[0]), a_u32(&a[1]), a_u32(&a[2]), a_u32(&a[3]), a_u32(&a[4]))),
+        "is_valid" => ok(r_bool(IntervalDT::is_valid(a_u32(&a[0]), a_u32(&a[1]), a_u32(&a[2]), a_u32(&a[3]), a_u32(&a[4])))),
         "try_from_usecs" => res(IntervalDT::try_from_usecs(a_i64(&a[0])), r_dt),
-        "usecs" => v3(a_dt(&a[0]).usecs() as i128),
+        "usecs" => ok(v3(a_dt(&a[0]).usecs() as i128)),
         "extract" => {
             let (s, d, hh, m, sec, u) = a_dt(&a[0]).extract();
-            json!([sign(s), d, hh, m, sec, u])
+            ok(json!([sign(s), d, hh, m, sec, u]))
         }
         "add_interval_dt" => res(a_dt(&a[0]).add_interval_dt(a_dt(&a[1])), r_dt),
         "sub_interval_dt" => res(a_dt(&a[0]).sub_interval_dt(a_dt(&a[1])), r_dt),
         "mul_f64" => res(a_dt(&a[0]).mul_f64(a_f64(&a[1])), r_dt),
         "div_f64" => res(a_dt(&a[0]).div_f64(a_f64(&a[1])), r_dt),
         "sub_time" => res(a_dt(&a[0]).sub_time(a_time(&a[1])), r_dt),
-        "neg" => r_dt(-a_dt(&a[0])),
-        "from_time" => r_dt(IntervalDT::from(a_time(&a[0]))),
-        "cmp" => r_ord(a_dt(&a[0]).cmp(&a_dt(&a[1]))),
-        "eq" => r_bool(a_dt(&a[0]) == a_dt(&a[1])),
-        "hash_eq" => r_bool(h(&a_dt(&a[0])) == h(&a_dt(&a[1]))),
-        "cmp_t" => cmp3(&a_dt(&a[0]), &a_time(&a[1])),
-        "eq_t" => r_bool(a_dt(&a[0]) == a_time(&a[1])),
+        "neg" => ok(r_dt(-a_dt(&a[0]))),
+        "from_time" => ok(r_dt(IntervalDT::from(a_time(&a[0])))),
+        "cmp" => ok(r_ord(a_dt(&a[0]).cmp(&a_dt(&a[1])))),
+        "eq" => ok(r_bool(a_dt(&a[0]) == a_dt(&a[1]))),
+        "hash_eq" => ok(r_bool(h(&a_dt(&a[0])) == h(&a_dt(&a[1])))),
+        "cmp_t" => ok(cmp3(&a_dt(&a[0]), &a_time(&a[1]))),
+        "eq_t" => ok(r_bool(a_dt(&a[0]) == a_time(&a[1]))),
         "format" => {
             let pic = a_txt(&a[1]);
             format_via!(IntervalDT, a_dt(&a[0]), &pic)
@@ -523,7 +642,7 @@ fn exec_dt(name: &str, a: &[Value]) -> Option<Value> {
         }
         "bin" => {
             let v = a_dt(&a[0]);
-            bin_roundtrip(&v, i64_of, |r| v3(r as i128), |b| bincode::deserialize::<IntervalDT>(b).ok(), r_dt)
+            ok(bin_roundtrip(&v, i64_of, |r| v3(r as i128), |b| bincode::deserialize::<IntervalDT>(b).ok(), r_dt))
         }
         "unbin" => {
             let raw = a_i64(&a[0]);
@@ -550,15 +669,15 @@ fn exec_dt(name: &str, a: &[Value]) -> Option<Value> {
 
 fn exec_od(name: &str, a: &[Value]) -> Option<Value> {
     Some(match name {
-        "new" => r_od(OracleDate::new(a_date(&a[0]), a_time(&a[1]))),
-        "usecs" => v3(a_od(&a[0]).usecs() as i128),
+        "new" => ok(r_od(OracleDate::new(a_date(&a[0]), a_time(&a[1])))),
+        "usecs" => ok(v3(a_od(&a[0]).usecs() as i128)),
         "extract" => {
             let (d, t) = a_od(&a[0]).extract();
-            json!([d.days(), t.usecs() / 1_000_000, t.usecs() % 1_000_000])
+            ok(json!([d.days(), t.usecs() / 1_000_000, t.usecs() % 1_000_000]))
         }
         "try_from_usecs" => res(OracleDate::try_from_usecs(a_i64(&a[0])), r_od),
-        "from_ts" => r_od(OracleDate::from(a_ts(&a[0]))),
-        "to_ts" => r_ts(Timestamp::from(a_od(&a[0]))),
+        "from_ts" => ok(r_od(OracleDate::from(a_ts(&a[0])))),
+        "to_ts" => ok(r_ts(Timestamp::from(a_od(&a[0])))),
         "try_from_time" => res(OracleDate::try_from(a_time(&a[0])), r_od),
         "add_interval_dt" => res(a_od(&a[0]).add_interval_dt(a_dt(&a[1])), r_od),
         "sub_interval_dt" => res(a_od(&a[0]).sub_interval_dt(a_dt(&a[1])), r_od),
@@ -572,19 +691,19 @@ fn exec_od(name: &str, a: &[Value]) -> Option<Value> {
             // f64 days -> whole seconds (exact: |error| < 1e-4 s, see DESIGN 3.2)
             let days = a_od(&a[0]).sub_date(a_od(&a[1]));
             let secs = (days * 86400.0).round() as i128;
-            v3(secs * 1_000_000)
+            ok(v3(secs * 1_000_000))
         }
-        "sub_timestamp" => r_dt(a_od(&a[0]).sub_timestamp(a_ts(&a[1]))),
+        "sub_timestamp" => ok(r_dt(a_od(&a[0]).sub_timestamp(a_ts(&a[1])))),
         "now" => res(OracleDate::now(), r_od),
-        "last_day_of_month" => r_od(a_od(&a[0]).last_day_of_month()),
-        "cmp" => r_ord(a_od(&a[0]).cmp(&a_od(&a[1]))),
-        "eq" => r_bool(a_od(&a[0]) == a_od(&a[1])),
-        "hash_eq" => r_bool(h(&a_od(&a[0])) == h(&a_od(&a[1]))),
-        "cmp_ts" => cmp3(&a_od(&a[0]), &a_ts(&a[1])),
-        "eq_ts" => r_bool(a_od(&a[0]) == a_ts(&a[1])),
-        "cmp_d" => cmp3(&a_od(&a[0]), &a_date(&a[1])),
-        "eq_d" => r_bool(a_od(&a[0]) == a_date(&a[1])),
-        "to_time" => r_time(Time::from(a_od(&a[0]))),
+        "last_day_of_month" => ok(r_od(a_od(&a[0]).last_day_of_month())),
+        "cmp" => ok(r_ord(a_od(&a[0]).cmp(&a_od(&a[1])))),
+        "eq" => ok(r_bool(a_od(&a[0]) == a_od(&a[1]))),
+        "hash_eq" => ok(r_bool(h(&a_od(&a[0])) == h(&a_od(&a[1])))),
+        "cmp_ts" => ok(cmp3(&a_od(&a[0]), &a_ts(&a[1]))),
+        "eq_ts" => ok(r_bool(a_od(&a[0]) == a_ts(&a[1]))),
+        "cmp_d" => ok(cmp3(&a_od(&a[0]), &a_date(&a[1]))),
+        "eq_d" => ok(r_bool(a_od(&a[0]) == a_date(&a[1]))),
+        "to_time" => ok(r_time(Time::from(a_od(&a[0])))),
         "format" => {
             let pic = a_txt(&a[1]);
             format_via!(OracleDate, a_od(&a[0]), &pic)
@@ -595,7 +714,7 @@ fn exec_od(name: &str, a: &[Value]) -> Option<Value> {
         }
         "bin" => {
             let v = a_od(&a[0]);
-            bin_roundtrip(&v, i64_of, |r| v3(r as i128), |b| bincode::deserialize::<OracleDate>(b).ok(), r_od)
+            ok(bin_roundtrip(&v, i64_of, |r| v3(r as i128), |b| bincode::deserialize::<OracleDate>(b).ok(), r_od))
         }
         "unbin" => {
             let raw = a_i64(&a[0]);
